@@ -55,7 +55,19 @@ pub fn campaign(ctx: &Ctx, c: &Campaign) -> Option<RunOutcome> {
         if c.dict {
             cmd.arg(format!("-dict={}", ctx.root.join("corpus/dict/kiki.dict").display()));
         }
-        cmd.env("VERIF_PROP", c.prop).stdout(Stdio::null()).stderr(Stdio::piped());
+        // stderr goes to a file: with a pipe the jobs block as soon as 64 KiB of libFuzzer's progress lines are
+        // unread, i.e. all but the one being waited for — the campaign would run one job at a time
+        let log = match std::fs::File::create(dir.join("stderr.log")) {
+            Ok(f) => f,
+            Err(e) => {
+                return Some(RunOutcome {
+                    stats: Stats::default(),
+                    failures: vec![Failure::internal("fuzz-spawn", format!("cannot create log file: {e}"), Value::Null)],
+                })
+            }
+        };
+        cmd.env("VERIF_PROP", c.prop).stdout(Stdio::null()).stderr(Stdio::from(log));
+        crate::engine::die_with_parent(&mut cmd);
         match cmd.spawn() {
             Ok(ch) => children.push((j, dir, ch)),
             Err(e) => {
@@ -68,15 +80,16 @@ pub fn campaign(ctx: &Ctx, c: &Campaign) -> Option<RunOutcome> {
     }
     let mut st = Stats::default();
     let mut fails = vec![];
-    for (j, dir, ch) in children {
-        let out = match ch.wait_with_output() {
-            Ok(o) => o,
+    for (j, dir, mut ch) in children {
+        let status = match ch.wait() {
+            Ok(s) => s,
             Err(e) => {
                 fails.push(Failure::internal("fuzz-wait", e.to_string(), Value::Null));
                 continue;
             }
         };
-        let err = String::from_utf8_lossy(&out.stderr);
+        let err_bytes = std::fs::read(dir.join("stderr.log")).unwrap_or_default();
+        let err = String::from_utf8_lossy(&err_bytes);
         let stat = |k: &str| -> u64 {
             err.lines().find_map(|l| l.strip_prefix(k)).and_then(|v| v.trim().parse().ok()).unwrap_or(0)
         };
@@ -116,9 +129,9 @@ pub fn campaign(ctx: &Ctx, c: &Campaign) -> Option<RunOutcome> {
                 }
             }
         }
-        if !out.status.success() && !found {
+        if !status.success() && !found {
             let tail: Vec<&str> = err.lines().rev().take(5).collect();
-            fails.push(Failure::internal("fuzz-exit", format!("fuzz job {j} exited with {:?}: {}", out.status.code(), tail.join(" | ")), Value::Null));
+            fails.push(Failure::internal("fuzz-exit", format!("fuzz job {j} exited with {:?}: {}", status.code(), tail.join(" | ")), Value::Null));
         }
     }
     let _ = std::fs::remove_dir_all(&base);
